@@ -394,7 +394,7 @@ fn c05_literal(src: &mut Src, ctx: &mut Ctx) -> Result<(), String> {
     ctx.nontrivial(hash_of(&texts[i]));
     c05_roundtrip(&lib, false).map_err(|e| format!("[{}] {}", texts[i], e))
 }
-/// The lefrw binary (read a LEF file, write it back) must behave like open + save.
+/// The lefrw binary (read a LEF file, write it back) must behave like open + save, also when the output path names the input file.
 fn c05_lefrw(src: &mut Src, ctx: &mut Ctx) -> Result<(), String> {
     let bin = match std::env::var("VERIF_LEFRW") {
         Ok(b) if std::path::Path::new(&b).exists() => b,
@@ -407,7 +407,18 @@ fn c05_lefrw(src: &mut Src, ctx: &mut Ctx) -> Result<(), String> {
     let o = render_opts(src, &lib);
     let (txt, _) = render(&lib, src, o);
     let inp = scratch_path("lefrw.in.lef");
-    let outp = scratch_path("lefrw.out.lef");
+    // one run in four rewrites the file in place: the output path is the input path, spelled the same or through `/./`
+    let outp = match src.below(8) {
+        0 => inp.clone(),
+        1 => {
+            let p = std::path::Path::new(&inp);
+            match (p.parent(), p.file_name()) {
+                (Some(d), Some(f)) => format!("{}/./{}", d.to_string_lossy(), f.to_string_lossy()),
+                _ => inp.clone(),
+            }
+        }
+        _ => scratch_path("lefrw.out.lef"),
+    };
     std::fs::write(&inp, &txt).map_err(|e| e.to_string())?;
     let status = std::process::Command::new(&bin).arg(&inp).arg(&outp).stdout(std::process::Stdio::null()).stderr(std::process::Stdio::null()).status().map_err(|e| format!("cannot run lefrw: {}", e))?;
     let written = std::fs::read_to_string(&outp).ok();
